@@ -274,34 +274,40 @@ example :
 
 /-! ## Keyword wiring (`CalendarRule.__init__`) -/
 
-/-- **wiring_identity — full statement (false of the unchanged tree, see `_refuted`):**
-    `∀ p, pluginRule p = intendedRule p` — every keyword reaches the same-named rrule argument
-    and date-valued arguments are read in the start's zone. -/
-theorem wiring_identity_refuted :
-    ∃ p : Params, (pluginRule p).byweekno ≠ (intendedRule p).byweekno :=
-  ⟨{ freq := .minutely, sOrd := 738946, sSod := 0, off := 0, datePrecision := false, interval := 1,
-     count := none, untilArg := none, bymonth := none, bymonthday := none, byyearday := none,
-     byweekno := none, byweekday := none, byhour := none, byminute := none, bysecond := some [30] },
-   by decide⟩
+/-- **wiring_identity.** Every keyword of the recipe reaches the same-named argument of the
+    recurrence, normalised from the same-named parameter — for every keyword set: the rule the
+    plugin builds differs from the rule the keywords describe in nothing but the reading of
+    `until` (zone handling, see `zone_consistency_*`).  (Before fix 5a30154 this was refuted by
+    `byweekno`, which was fed from `bysecond`.) -/
+theorem wiring_identity (p : Params) :
+    pluginRule p = { intendedRule p with untilAbs := p.untilArg.map (normUntil p.sSod) } := rfl
 
-/-- the only keyword that is fed from another parameter is `byweekno` (from `bysecond`):
-    all other integer-list keywords arrive unchanged -/
-theorem wiring_other_keywords (p : Params) :
+/-- … spelled out keyword by keyword -/
+theorem wiring_identity_keywords (p : Params) :
     (pluginRule p).bymonth = p.bymonth ∧ (pluginRule p).bymonthday = p.bymonthday ∧
-    (pluginRule p).byyearday = p.byyearday ∧ (pluginRule p).byhour = p.byhour ∧
+    (pluginRule p).byyearday = p.byyearday ∧ (pluginRule p).byweekno = p.byweekno ∧
+    (pluginRule p).byweekday = p.byweekday ∧ (pluginRule p).byhour = p.byhour ∧
     (pluginRule p).byminute = p.byminute ∧ (pluginRule p).bysecond = p.bysecond ∧
-    (pluginRule p).byweekday = p.byweekday ∧ (pluginRule p).byweekno = p.bysecond ∧
-    (pluginRule p).freq = p.freq ∧ (pluginRule p).interval = p.interval ∧ (pluginRule p).count = p.count :=
-  ⟨rfl, rfl, rfl, rfl, rfl, rfl, rfl, rfl, rfl, rfl, rfl⟩
+    (pluginRule p).freq = p.freq ∧ (pluginRule p).interval = p.interval ∧ (pluginRule p).count = p.count ∧
+    (pluginRule p).sOrd = p.sOrd ∧ (pluginRule p).sSod = p.sSod ∧ (pluginRule p).off = p.off :=
+  ⟨rfl, rfl, rfl, rfl, rfl, rfl, rfl, rfl, rfl, rfl, rfl, rfl, rfl, rfl⟩
 
-/-- **wiring_identity_partial.** When `bysecond` and `byweekno` agree (in particular when neither
-    is given) and `until` means the same instant under both readings, the rule the plugin builds
-    *is* the rule the keywords describe. -/
-theorem wiring_identity_partial (p : Params) (hw : p.bysecond = p.byweekno)
+/-- the input that exposed the repaired defect -/
+def d13Witness : Params :=
+  { freq := .minutely, sOrd := 738946, sSod := 0, off := 0, datePrecision := false, interval := 1,
+    count := none, untilArg := none, bymonth := none, bymonthday := none, byyearday := none,
+    byweekno := none, byweekday := none, byhour := none, byminute := none, bysecond := some [30] }
+
+/-- non-vacuity / regression witness: `bysecond: 30` no longer restricts the week of the year -/
+example : (pluginRule d13Witness).byweekno = none ∧ (pluginRule d13Witness).bysecond = some [30] := by
+  decide
+
+/-- **rule_identity** (the full `pluginRule p = intendedRule p`) holds whenever `until` means the
+    same instant under both readings — in particular without `until`; the zone defect D21/D35 is
+    the only remaining obstacle (see `zone_consistency_refuted`). -/
+theorem rule_identity_partial (p : Params)
     (hu : ∀ u, p.untilArg = some u → normUntil p.sSod u = intendedUntil p.sSod p.off u) :
     pluginRule p = intendedRule p := by
-  have h1 : (pluginRule p).byweekno = p.byweekno := by
-    rw [← hw]; rfl
   have h2' : ∀ o : Option DateArg,
       (∀ u, o = some u → normUntil p.sSod u = intendedUntil p.sSod p.off u) →
         o.map (normUntil p.sSod) = o.map (intendedUntil p.sSod p.off) := by
@@ -309,11 +315,12 @@ theorem wiring_identity_partial (p : Params) (hw : p.bysecond = p.byweekno)
     cases o with
     | none => simp
     | some u => simp [ho u rfl]
-  have h2 := h2' p.untilArg hu
-  have e : pluginRule p =
-      { intendedRule p with untilAbs := p.untilArg.map (normUntil p.sSod), byweekno := (pluginRule p).byweekno } := rfl
-  rw [e, h1, h2]
+  rw [wiring_identity p, h2' p.untilArg hu]
   rfl
+
+/-- without `until` the two rules coincide outright -/
+theorem rule_identity_no_until (p : Params) (h : p.untilArg = none) : pluginRule p = intendedRule p :=
+  rule_identity_partial p (fun u hu => by rw [h] at hu; cases hu)
 
 /-- **zone_consistency — refuted.** A date-valued `until` is not read in the start's zone: with
     a `+05:00` start the plugin's `until` instant is five hours late. -/
